@@ -1,4 +1,4 @@
 From Coq Require Import NArith Extraction ExtrOcamlBasic.
 From CyVerif Require Import Lib.CInt Model.M_Flow Model.M_FlowCFG.
 Extraction "../ocaml/gen/m_flow.ml" ex_keep analyse reaching_definitions initialize classify
-  run_cfg cls_at edges_at_end wf reachable len.
+  run_cfg cls_at edges_at_end graph_ok wf reachable len.
